@@ -238,20 +238,26 @@ class Model(object):
 
     # ------------------------------------------------------------------
     # write requests
+    @staticmethod
+    def norm(lru):
+        """Bytes after the last separator belong to no stem: the index ignores them."""
+        return lru[: lru.rfind(b"|") + 1]
+
     def add_page(self, lru, crawled=False):
         rep = new_report()
-        self._add_page(lru, crawled, rep)
+        self._add_page(self.norm(lru), crawled, rep)
         return rep
 
     def add_pages(self, lrus, crawled=False):
         rep = new_report()
         for l in lrus:
-            self._add_page(l, crawled, rep)
+            self._add_page(self.norm(l), crawled, rep)
         return rep
 
     def add_links(self, pairs):
         rep = new_report()
         seen = set()
+        pairs = [(self.norm(s), self.norm(t)) for s, t in pairs]
         for s, t in pairs:
             for x in (s, t):
                 if x not in seen:
@@ -266,6 +272,7 @@ class Model(object):
         """data: list of (source, [targets]) with distinct sources"""
         rep = new_report()
         seen = set()
+        data = [(self.norm(s), [self.norm(t) for t in ts]) for s, ts in data]
         for s, ts in data:
             if s not in seen:
                 seen.add(s)
